@@ -507,4 +507,30 @@ theorem matvec_eq_sparse_matvec (n : Nat) (a : List (List (Nat × Nat) × GQ)) (
   subst hL'
   rw [hg]
 
+/-- **`parallel_matvec_matrix`** — `ParallelLinearQubitOperator._matvec` against the Spec for ALL inputs and
+EVERY completion order of the worker pool: for every process count `k`, every delivery order `perm` that is
+a permutation of the group indices, every vector of length `2^n` and every basis state `u < 2^n`, the
+entry `beIndex n u` of the result is `Σ_{s < 2^n} ⟨u|A|s⟩ · x[beIndex n s]` for the undivided operator. -/
+theorem parallel_matvec_matrix (n k : Nat) (a : List (List (Nat × Nat) × GQ)) (x : List GQ)
+    (hx : x.length = 2 ^ n)
+    (ha : ∀ e ∈ a, e.1.Pairwise (fun f g => f.1 < g.1) ∧ ∀ f ∈ e.1, f.1 < n ∧ 1 ≤ f.2 ∧ f.2 ≤ 3)
+    (perm : List Nat) (hperm : perm.Perm (List.range (operatorGroups k a).length))
+    (u : Nat) (hu : u < 2 ^ n) :
+    (parallelMatvec k a x perm).getD (beIndex n u) 0 =
+      sumTo (2 ^ n) (fun s =>
+        (a.foldl (fun acc e => acc + e.2 * Spec.C07.ampP e.1 s u) 0) * x.getD (beIndex n s) 0) := by
+  rw [parallel_any_order k a x perm _ hperm, parallel_matvec_sound n k a x hx ha]
+  exact matvec_sound n a x hx ha u hu
+
+/-- `get_linear_qubit_operator_diagonal` is the diagonal of `qubit_operator_sparse`: with `L` the entry
+list of the sparse matrix, `diagonal[i] = L[i, i]` for every index `i = beIndex n s`, `s < 2^n`. -/
+theorem diagonal_eq_sparse_diagonal (n : Nat) (a : List (List (Nat × Nat) × GQ)) (hc : countQubitsQubit a ≤ n)
+    (ha : ∀ e ∈ a, e.1.Pairwise (fun f g => f.1 < g.1) ∧ ∀ f ∈ e.1, f.1 < n ∧ 1 ≤ f.2 ∧ f.2 ≤ 3)
+    (s : Nat) (hs : s < 2 ^ n) :
+    ∃ v L, linearDiagonal (some n) a = some v ∧ qubitOperatorSparse (some n) a = some (2 ^ n, L) ∧
+      v.getD (beIndex n s) 0 = getL L (beIndex n s) (beIndex n s) := by
+  obtain ⟨v, hv, _, hd⟩ := diagonal_sound n a hc ha s hs
+  obtain ⟨L, hL, hg⟩ := qubit_sparse_sound n a hc ha s s hs hs
+  exact ⟨v, L, hv, hL, by rw [hd, hg]⟩
+
 end OFV.C06
